@@ -1111,6 +1111,30 @@ class G:
                     ops.append(f"r{t}:{c}:1:0")
             yield "threads " + " ".join(ops)
 
+    def thread_mix(self, reqs, n):
+        """schedules over 2-4 OS threads whose operations are requests of ANOTHER property's generator (`reqs(k)` yields k request
+        lines; their mode token is dropped — the thread's own default mode applies), interleaved with `set_default` calls (also
+        redundant ones back to HalfEven on threads that never changed their mode) and reads of the default"""
+        r = self.r
+        pool = [l for l in reqs(max(60, 3 * n)) if not l.startswith("threads") and not l.startswith("Dec!")]
+        # raw calls of the doc-hidden helpers take their mode as an explicit argument (the request's mode token): not thread-dependent
+        pool = [l for l in pool if len(l.split()) > 2 and "_" not in l and not l.split()[1].startswith("k")]
+        if not pool:
+            return
+        for _ in range(n):
+            nt = r.randrange(2, 5)
+            ops = []
+            for _ in range(r.randrange(3, 12)):
+                t = r.randrange(1, nt + 1)
+                k = r.randrange(7)
+                if k == 0:
+                    ops.append(f"s{t}:{r.choice(MODES + ['heven', 'heven', 'heven'])}")
+                elif k == 1:
+                    ops.append(r.choice([f"g{t}", f"p{t}"]))
+                else:
+                    ops.append(f"x{t}:" + "_".join(r.choice(pool).split()[1:]))
+            yield "threads " + " ".join(ops)
+
     # ---------------------------------------------------------------- C20
     def c20(self, n):
         """overflow-edge heavy mix over every operation family"""
